@@ -5,7 +5,7 @@
    float32 / byte words, all attributes of one length, indices below it) — no bound on the number of
    models, vertices, attributes, repeated pointers, materials, instances or lights. *)
 From PF Require Import Base.Bytes Formats.Gltf Formats.GltfProofs Formats.GltfExtProofs Formats.GltfDedupProofs
-  Formats.GltfNodeProofs Formats.GltfTexProofs Formats.GltfGlbProofs Formats.GltfFinalProofs.
+  Formats.GltfNodeProofs Formats.GltfTexProofs Formats.GltfGlbProofs Formats.GltfFinalProofs Formats.GltfGeomProofs.
 From Coq Require String.
 Import String.StringSyntax.
 Delimit Scope string_scope with string.
@@ -305,6 +305,32 @@ Theorem prim_clauses_hold : forall sc, scene_ok sc ->
   forallb (fun m => forallb (indices_in_range s (buf (run sc))) (gm_prims m)) (s_meshes s) = true.
 Proof. exact prim_clauses_run. Qed.
 Print Assumptions prim_clauses_hold.
+
+(* ---- round 5 *)
+(* the checker's accessor judgement [acc_is] (component type, arity, count, decoded image, declared bounds)
+   in boolean form: accessor n of the model's document passes it against the chunk the writer was handed —
+   the core of "attribute-image", "index-image" and "instances" *)
+Theorem acc_is_holds : forall sc, scene_ok sc ->
+  let st := run sc in let s := to_summary st in
+  forall n ck, nth_error (b_chunks (st_b st)) n = Some ck ->
+    acc_is s (Some (buf st)) (N.of_nat n) (comp_code (ck_comp ck)) (ck_k ck) (ck_data ck) = true.
+Proof. exact acc_is_run. Qed.
+Print Assumptions acc_is_holds.
+
+(* completeness ("carries EXACTLY the scene data"): with distinct glTF attribute names per mesh
+   ([names_ok]: the writer's map insert would replace otherwise), the primitive of every model node lists
+   exactly as many attributes as that model's mesh has, each under its glTF name, and each passes [acc_is]
+   against the mesh's own attribute — "attribute-set" and "attribute-image", node by node *)
+Theorem attributes_complete : forall sc, scene_ok sc -> scene_ptr_ok sc ->
+  (forall mo, In mo (sc_models sc) -> names_ok (mo_mesh mo)) ->
+  let st := run sc in let s := to_summary st in
+  forall mo nd, In (mo, nd) (combine (filter live (sc_models sc)) (model_nodes sc)) ->
+  exists mi p ii, node_doc st mo nd mi p ii /\ length (gp_attrs p) = length (all_attrs (mo_mesh mo)) /\
+    forall k nv, attr_of (mo_mesh mo) k nv ->
+      exists ai, amap_get (gltf_name (fst nv)) (gp_attrs p) = Some ai /\
+                 acc_is s (Some (buf st)) ai (comp_code (attr_comp (fst nv))) k (snd nv) = true.
+Proof. exact attrs_complete_run. Qed.
+Print Assumptions attributes_complete.
 
 (* documentation of the defect repaired by /repo 31c30a5 (found while proving "material-content"): the
    PINNED texture equality [ptex_equal_pinned] (URI and sampler settings only) calls two textures equal
